@@ -343,7 +343,7 @@ func c13(c *ctx) {
 		for _, st := range storesTo(newVS, tot) {
 			pTot = c.p.path(st.Val)
 		}
-		r.Check(pTot != "" && strings.Contains(pMin, "loopvar") || strings.Contains(pMin, pTot), "R2/NewValidatorSet/threshold-from-total", c.p.Pos(newVS.Pos()), "MinimumMaj23 = "+short(pMin)+" derived from the members' total power", "MinimumMaj23 ("+pMin+") is not derived from the accumulated total power ("+pTot+")")
+		r.Check(pTot != "" && has(pMin, "loopvar") || has(pMin, pTot), "R2/NewValidatorSet/threshold-from-total", c.p.Pos(newVS.Pos()), "MinimumMaj23 = "+short(pMin)+" derived from the members' total power", "MinimumMaj23 ("+pMin+") is not derived from the accumulated total power ("+pTot+")")
 	}
 
 	// ------------------------------------------------------------------ R3
@@ -420,7 +420,7 @@ func c13(c *ctx) {
 		if timeMachine != nil {
 			for _, stx := range storesTo(timeMachine, c.p.Field("fsm", "cache", "liveValidators")) {
 				p := c.p.path(stx.Val)
-				r.Check(strings.Contains(p, ".sharedCache.sets[") && strings.Contains(p, "$1"), "R4/TimeMachine/shared-list-height", c.p.Pos(stx.Pos()), "list taken from sharedCache.sets[height]", "TimeMachine seeds the historical validator list from "+p+", not from the shared cache entry of the requested height")
+				r.Check(has(p, ".sharedCache.sets[") && requestedHeight(p), "R4/TimeMachine/shared-list-height", c.p.Pos(stx.Pos()), "list taken from sharedCache.sets[height]", "TimeMachine seeds the historical validator list from "+p+", not from the shared cache entry of the requested height")
 			}
 		}
 	}
